@@ -18,10 +18,19 @@ func (HT) Panic(v int) { panic(v) }
 var stopErrs = []error{nil, errors.New("stop-1"), errors.New("stop-2")}
 
 var hPackage = native.Packages{"h": native.Package{Name: "h", Declarations: native.Declarations{
-	"Stop":  func(env native.Env, k int) { env.Stop(stopErrs[k]) },
-	"Fatal": func(env native.Env, v int) { env.Fatal(v) },
+	// Stop and Fatal print the marker "S" first: nothing may be printed after it
+	"Stop":  func(env native.Env, k int) { env.Println("S"); env.Stop(stopErrs[k]) },
+	"Fatal": func(env native.Env, v int) { env.Println("S"); env.Fatal(v) },
 	"Panic": func(v int) { panic(v) },
-	"T":     reflect.TypeOf(HT{}),
+	"Print": func(env native.Env, x int) { env.Println("O", x) },
+	"Nop":   func() {},
+	"Call":  func(f func()) { f() },
+	"CallN": func(n int, f func()) {
+		for i := 0; i < n; i++ {
+			f()
+		}
+	},
+	"T": reflect.TypeOf(HT{}),
 }}}
 
 // outcome is the observable behaviour of one run, in the canonical form of the protocol:
@@ -60,7 +69,9 @@ func eventsOf(text string) (string, bool) {
 		case l == "R nil":
 			ev = append(ev, "rn")
 		case strings.HasPrefix(l, "R "):
-			ev = append(ev, "r"+l[2:])
+			c := valCode(l[2:])
+			ok = ok && !strings.HasPrefix(c, "?")
+			ev = append(ev, "r"+c)
 		case strings.HasPrefix(l, "O "):
 			ev = append(ev, "o"+l[2:])
 		default:
@@ -89,13 +100,19 @@ func chainOf(pe *scriggo.PanicError) (chain string, problem string) {
 		}
 		// (no Error()/String() of a foreign message: formatting must not run code of the value)
 		var s string
-		if v, ok := p.Message().(int); ok {
+		msg := p.Message()
+		if v, ok := msg.(int); ok {
 			s = fmt.Sprint(v)
 			if p.String() != s {
 				problem = "String() differs from Message()"
 			}
+		} else if rv := reflect.ValueOf(msg); msg != nil && rv.Kind() == reflect.String && strings.HasSuffix(rv.Type().String(), "runtimeError") {
+			s = valCode(rv.String()) // the interpreter's own run-time error (a string type)
+			if p.String() != rv.String() {
+				problem = "String() differs from Message()"
+			}
 		} else {
-			s = fmt.Sprintf("?%T", p.Message())
+			s = fmt.Sprintf("?%T", msg)
 			problem = "message is not a value the program panicked with"
 		}
 		if p.Recovered() {
@@ -123,7 +140,7 @@ func gcTextOf(chain string) string {
 		if i > 0 {
 			b.WriteString("\t")
 		}
-		b.WriteString("panic: " + v)
+		b.WriteString("panic: " + valText(v))
 		if j > i {
 			b.WriteString(" [recovered, repanicked]")
 		} else if strings.HasSuffix(l, "r") {
